@@ -4,13 +4,24 @@
    cylinders; beyond 1024 it is clamped and no longer covers the image (C12_cylinders_clamped:
    explicit, with witness -- the cap copies isohybrid.c; recorded as a known finding); the table
    driven CRC-32 used for the GPT headers equals the bitwise reflected CRC-32 (0xEDB88320) for ALL
-   byte strings.  MBR/GPT/APM field contents are decided on generated hybrid images by the
-   independent reader. *)
+   byte strings.  Model/Hybrid.v is a byte-level hand model of isohybrid.py (IsoHybrid.new/record/
+   parse, GPTHeader, GPTPartHeader, GPT.record, APMPartHeader; tied to /repo by hybridleaf.py on
+   every run): the MBR is 512 bytes with the partition entry at 446+16(k-1), its CHS end decodes
+   to (cc-1, heads-1, sectors), parse . record is the identity on well-formed objects, every GPT
+   header verifies for a reader (signature, size 92, CRC with the field zeroed), the backup GPT is
+   placed in the last 33 sectors of the padded image.  Three statements a reader would expect are
+   REFUTED with witnesses reproduced on pycdlib (known findings): the partition size when cylinders
+   are clamped, the GPT entry-array CRC (computed over the used entries only, not over
+   NumberOfPartitionEntries*128 bytes as UEFI prescribes), and the backup GPT overwriting the
+   volume tail when the padding is shorter than 33 sectors.  MBR/GPT/APM contents of whole images
+   are decided by the independent reader. *)
 From Coq Require Import ZArith List Bool.
 From PV.Base Require Import Prim.
 From PV.Gen Require Import GenFun.
 From PV.Model Require Import Checksums.
 From PV.Proofs Require Import ChecksumsProofs ChecksumsArithProofs.
+From PV.Model Require Hybrid.
+From PV.Proofs Require HybridProofs HybridGptProofs.
 Import ListNotations.
 Local Open Scope Z_scope.
 
@@ -42,3 +53,57 @@ Proof. exact crc32_spec. Qed.
 
 Theorem C12_crc_reference_value : crc32_bit [49; 50; 51; 52; 53; 54; 55; 56; 57] = 0xCBF43926.
 Proof. exact (proj2 crc_check_values). Qed.
+
+(* ---- Model/Hybrid.v ----------------------------------------------------------------------------- *)
+Theorem C12_mbr_is_one_sector : forall y iso b, Hybrid.ih_record_mbr y iso = Some b -> length b = 512%nat.
+Proof. exact HybridProofs.mbr_length. Qed.
+
+Theorem C12_mbr_layout : forall y iso b, Hybrid.ih_record_mbr y iso = Some b ->
+  slice 0 446 b = HybridProofs.mbr_prefix y /\ slice 510 512 b = [85; 170] /\
+  forall k, 1 <= k <= 4 -> Hybrid.ih_entry y iso k = Some (HybridProofs.mbr_entry_at b k).
+Proof. exact HybridProofs.mbr_layout. Qed.
+
+Theorem C12_chs_end_decodes : forall cc heads sectors,
+  1 <= cc <= 1024 -> 1 <= heads <= 256 -> 1 <= sectors <= 63 ->
+  Hybrid.chs_decode (heads - 1) (Hybrid.chs_esect sectors cc) (Hybrid.chs_ecyle cc) = (cc - 1, heads - 1, sectors) /\
+  0 <= heads - 1 <= 255 /\ 0 <= Hybrid.chs_esect sectors cc <= 255 /\ 0 <= Hybrid.chs_ecyle cc <= 255.
+Proof. exact HybridProofs.chs_end_decodes. Qed.
+
+Theorem C12_partition_size_when_not_clamped : forall y iso,
+  0 < Hybrid.ih_heads y -> 0 < Hybrid.ih_sectors y -> 0 <= iso ->
+  (iso + Hybrid.ih_padlen y iso) / (Hybrid.ih_heads y * Hybrid.ih_sectors y * 512) <= 1024 ->
+  Hybrid.ih_psize y iso = (iso + Hybrid.ih_padlen y iso) / 512 - Hybrid.ih_part_offset y.
+Proof. exact HybridProofs.psize_when_not_clamped. Qed.
+
+Theorem C12_partition_size_clamped_refuted :
+  exists y iso, 0 < Hybrid.ih_heads y /\ 0 < Hybrid.ih_sectors y /\ 0 <= iso /\
+    ~ (Hybrid.ih_psize y iso = (iso + Hybrid.ih_padlen y iso) / 512 - Hybrid.ih_part_offset y).
+Proof. exact HybridProofs.psize_clamped_refuted. Qed.
+
+Theorem C12_mbr_roundtrip : forall y iso b rest, HybridProofs.ih_wf y -> Hybrid.ih_record_mbr y iso = Some b ->
+  Hybrid.ih_parse_mbr (b ++ rest) = Hybrid.POk (Hybrid.ih_set_sectors y (HybridProofs.parsed_sectors y iso)).
+Proof. exact HybridProofs.mbr_roundtrip. Qed.
+
+Theorem C12_gpt_header_verifies : forall g c, Hybrid.ghdr_ranges_ok g c = true ->
+  exists b, Hybrid.ghdr_record g c = Some b /\ length b = 512%nat /\ Hybrid.verify_gpt_header b = true.
+Proof. exact HybridGptProofs.verify_gpt_header_total. Qed.
+
+Theorem C12_gpt_array_crc_over_used_entries_only_refuted :
+  length (Hybrid.g_parts HybridGptProofs.one_entry_gpt) = 1%nat /\
+  Hybrid.gh_num_parts (Hybrid.g_header HybridGptProofs.one_entry_gpt) = 128 /\
+  exists b, Hybrid.gpt_record HybridGptProofs.one_entry_gpt = Some b /\
+    Codec.dle32 (slice 88 92 b) = crc32 (slice 512 (512 + 128 * 1) b) /\
+    Codec.dle32 (slice 88 92 b) <> crc32 (slice 512 (512 + 128 * 128) b) /\
+    Hybrid.verify_gpt_header (firstn 512 b) = true /\
+    Hybrid.verify_gpt_array_uefi (firstn 512 b) (skipn 512 b) = false.
+Proof. exact HybridGptProofs.gpt_parts_crc_over_used_entries_only. Qed.
+
+Theorem C12_backup_gpt_overwrites_refuted :
+  (exists y0 y, Hybrid.hy_new true false 1 1 0 1 1 0 ([], [], [], []) ([], [], [], []) = Some y0 /\
+       Hybrid.hy_update_efi y0 10 4 20480 = Some y /\ HybridGptProofs.padded_sectors (Hybrid.hy_ih y) 20480 = 40 /\
+       Hybrid.secondary_write_offset (Hybrid.hy_sec y) = 7 * 512 /\
+       Hybrid.secondary_write_offset (Hybrid.hy_sec y) < 34 * 512) /\
+  (exists y0 y, Hybrid.hy_new true false 1 1 0 32 64 0 ([], [], [], []) ([], [], [], []) = Some y0 /\
+       Hybrid.hy_update_efi y0 100 2880 10485760 = Some y /\ Hybrid.ih_padlen (Hybrid.hy_ih y) 10485760 = 0 /\
+       Hybrid.secondary_write_offset (Hybrid.hy_sec y) = 10485760 - 16896).
+Proof. exact HybridGptProofs.backup_gpt_overlap_refuted. Qed.
